@@ -48,6 +48,70 @@ func checkC20(c Node) Verdict {
 			return fail("vars", sqls, sig, "caller's variable map after query %d: want %s got %s", i+1, Canon(wv), Canon(any(vars)))
 		}
 	}
+	// the names of the registers are the caller's business: the same history with k1 / k2 renamed to numbers (written
+	// as numeric constants) whose %v text is in exponent form - SETVAR, GETVAR and the caller's map have to agree on
+	// one spelling of such a name
+	{
+		keyName := map[string]string{"k1": "1e+06", "k2": "1e-05"}
+		keyText := map[string]string{"k1": "1000000", "k2": "0.00001"}
+		renameMap := func(m any) map[string]any {
+			out := map[string]any{}
+			for k, x := range m.(map[string]any) {
+				if n, ok := keyName[k]; ok {
+					k = n
+				}
+				out[k] = x
+			}
+			return out
+		}
+		var renameKeys func(v any) any
+		renameKeys = func(v any) any {
+			switch t := v.(type) {
+			case map[string]any:
+				out := Node{}
+				for k, x := range t {
+					out[k] = renameKeys(x)
+				}
+				if f, _ := t["f"].(string); t["k"] == "fn" && (f == "setvar" || f == "getvar") {
+					args := append([]any{}, seq(out["args"])...)
+					if lit, ok := args[0].(Node); ok && lit["k"] == "lit" {
+						if txt, ok := keyText[CodePoints(lit["v"].(Node)["c"])]; ok {
+							args[0] = Lit(Node{"t": "num", "n": float64(1), "d": float64(1), "raw": txt})
+							out["args"] = args
+						}
+					}
+				}
+				return out
+			case []any:
+				out := make([]any, len(t))
+				for i, x := range t {
+					out[i] = renameKeys(x)
+				}
+				return out
+			}
+			return v
+		}
+		vars2 := renameMap(FromTagged(c["vars0"]))
+		rsig := append(append([]string{}, sig...), "numeric-names")
+		sqls2 := ""
+		for i, qn := range prog {
+			qn := qn.(Node)
+			sql := Style{}.Query(renameKeys(varsQuery(qn)).(Node))
+			sqls2 += sql + " ; "
+			out := Run(map[string]any{"t": FromTagged(qn["tbl"])}, sql, false, Opts(nil, vars2, nil)...)
+			v.Execs++
+			want := results[i].(Node)
+			if out.Panic != nil || out.Err != nil {
+				return fail("error", sqls2, rsig, "query %d: %s", i+1, out.Describe())
+			}
+			if wr := FromTagged(want["rows"]); !Equal(any(out.Rows), wr) {
+				return fail("result", sqls2, rsig, "query %d rows: want %s got %s", i+1, Canon(wr), Canon(any(out.Rows)))
+			}
+			if wv := renameMap(FromTagged(want["vars"])); !Equal(any(vars2), any(wv)) {
+				return fail("vars", sqls2, rsig, "caller's variable map after query %d: want %s got %s", i+1, Canon(any(wv)), Canon(any(vars2)))
+			}
+		}
+	}
 	// the same single statement with an ORDER BY on a source column that is not projected (whose order is the reverse
 	// of the source order): evaluation order is still source order - the map ends up the same, the rows are the same rows
 	if len(prog) == 1 && num(prog[0].(Node)["lim"]) < 0 {
